@@ -10,12 +10,14 @@ package main
 // servers (bad metadata, transmit before receive) that the client must refuse.
 
 import (
+	crand "crypto/rand"
 	"net"
 	"net/netip"
 	"sync"
 	"time"
 
 	"example.com/scion-time/net/ntp"
+	"example.com/scion-time/net/nts"
 )
 
 type actKind int
@@ -36,13 +38,27 @@ const (
 	aStaleOnly
 	aBadMeta
 	aTxBeforeRx
+	aLateReply // handled, but the reply leaves only when the next request arrives (to the old socket)
 	numActKinds
 )
 
 var actNames = [...]string{"normal", "dropreq", "dropreply", "dupreply", "dupreq", "dupreqrev", "forcebasic",
-	"junkfirst", "foreignfirst", "stalefirst", "twostale", "twojunk", "staleonly", "badmeta", "txbeforerx"}
+	"junkfirst", "foreignfirst", "stalefirst", "twostale", "twojunk", "staleonly", "badmeta", "txbeforerx", "latereply"}
 
-func (k actKind) waits() bool { return k == aDropReq || k == aDropReply || k == aStaleOnly }
+// nothing the client can finish the attempt with arrives
+func (k actKind) silent() bool {
+	return k == aDropReq || k == aDropReply || k == aStaleOnly || k == aLateReply
+}
+
+// the client runs into its deadline (a real loss); with unblock two junk datagrams
+// end the attempt instead, so that nothing depends on a wall-clock wait
+func (a action) waits() bool { return a.kind.silent() && !a.unblock }
+
+const (
+	junkShort    = 0 // shorter than an NTP packet
+	junkOversize = 1 // IP: longer than the client's 48-byte buffer (MSG_TRUNC); SCION: short
+	junkForeign  = 2 // IP: from another address; SCION: from another AS, with a receive-timestamp option
+)
 
 type action struct {
 	kind  actKind
@@ -50,6 +66,9 @@ type action struct {
 	fwd   [2]time.Duration // extra delay before the peer stamps the receipt
 	back  [2]time.Duration // extra delay between the transmit stamp and the send
 	meta  int              // variant for aBadMeta / aStaleFirst
+	junk    int            // flavour of the junk datagrams of aJunkFirst / aTwoJunk
+	unblock bool           // silent kinds: two junk datagrams end the attempt instead of the deadline
+	gate    func()         // c03.multi: the request is dealt with only after gate returns
 }
 
 type handling struct {
@@ -65,6 +84,9 @@ type sentDgram struct {
 }
 
 type attemptLog struct {
+	port   uint16 // source port of the request
+	keSrv  int    // NTS: the server the key-exchange data in use names
+	uid    []byte // NTS: unique identifier of the request
 	srv    int
 	reqRaw []byte // SCION: the request packet as received
 	req    ntp.Packet
@@ -97,46 +119,63 @@ type histState struct {
 	store     [2]map[ntp.Time64]ntp.Time64
 	used      map[ntp.Time64]bool
 	replies   []sentReply // every reply sent so far (for stale replays)
-	deadlineOf map[int]time.Time
+	held      []heldReply
+}
+
+type heldReply struct {
+	conn *net.UDPConn
+	to   netip.AddrPort
+	b    []byte
 }
 
 type peer struct {
-	mu      sync.Mutex
-	cond    *sync.Cond
-	conns   [2]*net.UDPConn
-	foreign *net.UDPConn
-	h       *histState
+	mu       sync.Mutex
+	conns    [2]*net.UDPConn // the two servers, IPv4
+	conns6   [2]*net.UDPConn // the two servers, IPv6 loopback
+	foreign  *net.UDPConn
+	h        *histState
+	ke       *keServer
 }
 
 func newPeer(addr, foreignAddr netip.Addr) *peer {
 	p := &peer{}
-	p.cond = sync.NewCond(&p.mu)
-	for i := range p.conns {
-		c, err := net.ListenUDP("udp", net.UDPAddrFromAddrPort(netip.AddrPortFrom(addr, 0)))
+	listen := func(a netip.Addr) *net.UDPConn {
+		c, err := net.ListenUDP("udp", net.UDPAddrFromAddrPort(netip.AddrPortFrom(a, 0)))
 		if err != nil {
 			panic(err)
 		}
-		p.conns[i] = c
+		return c
 	}
-	c, err := net.ListenUDP("udp", net.UDPAddrFromAddrPort(netip.AddrPortFrom(foreignAddr, 0)))
-	if err != nil {
-		panic(err)
-	}
-	p.foreign = c
 	for i := range p.conns {
-		go p.serve(i)
+		p.conns[i] = listen(addr)
+		p.conns6[i] = listen(netip.IPv6Loopback())
 	}
+	p.foreign = listen(foreignAddr)
+	for i := range p.conns {
+		go p.serve(p.conns[i], i)
+		go p.serve(p.conns6[i], i)
+	}
+	p.ke = newKEServer(p, addr)
 	return p
 }
 
-func (p *peer) addr(i int) *net.UDPAddr {
-	a := p.conns[i].LocalAddr().(*net.UDPAddr)
+func (p *peer) conn(srv int) *net.UDPConn {
+	if p.h != nil && p.h.script.v6 {
+		return p.conns6[srv]
+	}
+	return p.conns[srv]
+}
+
+func (p *peer) addrOf(c *net.UDPConn) *net.UDPAddr {
+	a := c.LocalAddr().(*net.UDPAddr)
 	return &net.UDPAddr{IP: append(net.IP(nil), a.IP...), Port: a.Port}
 }
+func (p *peer) addr(i int) *net.UDPAddr  { return p.addrOf(p.conns[i]) }
+func (p *peer) addr6(i int) *net.UDPAddr { return p.addrOf(p.conns6[i]) }
 
 func (p *peer) begin(s *histScript) {
 	p.mu.Lock()
-	p.h = &histState{script: s, used: map[ntp.Time64]bool{}, deadlineOf: map[int]time.Time{}}
+	p.h = &histState{script: s, used: map[ntp.Time64]bool{}}
 	p.h.store[0] = map[ntp.Time64]ntp.Time64{}
 	p.h.store[1] = map[ntp.Time64]ntp.Time64{}
 	p.mu.Unlock()
@@ -152,7 +191,7 @@ func (p *peer) setCall(i int) {
 func (p *peer) nextWaits() bool {
 	p.mu.Lock()
 	defer p.mu.Unlock()
-	return p.h.currentAction().kind.waits()
+	return p.h.currentAction().waits()
 }
 
 func (h *histState) currentAction() action {
@@ -187,10 +226,10 @@ func (p *peer) waitDone(n int, limit time.Duration) bool {
 	}
 }
 
-func (p *peer) serve(srv int) {
+func (p *peer) serve(c *net.UDPConn, srv int) {
 	buf := make([]byte, 2048)
 	for {
-		n, from, err := p.conns[srv].ReadFromUDPAddrPort(buf)
+		n, from, err := c.ReadFromUDPAddrPort(buf)
 		if err != nil {
 			return
 		}
@@ -218,19 +257,53 @@ func (p *peer) onRequest(srv int, b []byte, from netip.AddrPort, rxReal time.Tim
 	if ntp.DecodePacket(&req, payload) != nil {
 		return
 	}
-	act := h.currentAction()
+	// replies held back leave now, for the socket they were meant for
+	for _, hr := range h.held {
+		hr.conn.WriteToUDPAddrPort(hr.b, hr.to)
+	}
+	h.held = nil
+	var act action
+	if h.script.multi != nil {
+		act = h.script.multi[srv]
+	} else {
+		act = h.currentAction()
+	}
 	h.kInCall++
-	al := &attemptLog{srv: srv, req: req, act: act.kind, reqRaw: b}
+	al := &attemptLog{srv: srv, req: req, act: act.kind, reqRaw: b, port: from.Port()}
+	if h.script.nts {
+		var nreq nts.Packet
+		if nts.DecodePacket(&nreq, payload) == nil {
+			al.uid = nreq.UniqueID.ID
+		}
+		al.keSrv = p.ke.lastSrv()
+	}
 	idx := len(h.attempts)
 	h.attempts = append(h.attempts, al)
 	defer func() { al.done = true }()
+	if act.gate != nil {
+		p.mu.Unlock()
+		act.gate()
+		rxReal = realNow()
+		p.mu.Lock()
+	}
+	p.act(h, idx, al, act, srv, req, from, rxReal)
+	if act.kind.silent() && act.unblock {
+		p.sendRaw(al, srv, from, junkShort)
+		p.sendRaw(al, srv, from, junkShort)
+	}
+}
 
+func (p *peer) act(h *histState, idx int, al *attemptLog, act action, srv int, req ntp.Packet, from netip.AddrPort, rxReal time.Time) {
 	switch act.kind {
 	case aDropReq:
 		return
 	case aDropReply:
 		pd := p.handle(h, srv, req, from, rxReal, act.theta[0], act.fwd[0], false)
 		p.finish(h, idx, al, pd, act.back[0], false, nil)
+	case aLateReply:
+		pd := p.handle(h, srv, req, from, rxReal, act.theta[0], act.fwd[0], false)
+		pkt := p.finish(h, idx, al, pd, act.back[0], false, nil)
+		h.held = append(h.held, heldReply{conn: p.conn(srv), to: from, b: p.encode(al, pkt, realNow())})
 	case aDupReply:
 		pd := p.handle(h, srv, req, from, rxReal, act.theta[0], act.fwd[0], false)
 		pkt := p.finish(h, idx, al, pd, act.back[0], true, nil)
@@ -249,21 +322,17 @@ func (p *peer) onRequest(srv int, b []byte, from netip.AddrPort, rxReal time.Tim
 		pd := p.handle(h, srv, req, from, rxReal, act.theta[0], act.fwd[0], true)
 		p.finish(h, idx, al, pd, act.back[0], true, nil)
 	case aJunkFirst, aTwoJunk:
-		p.sendRaw(al, srv, from, []byte{0x24, 1, 2, 3, 4, 5, 6, 7, 8, 9}, false)
+		p.sendRaw(al, srv, from, act.junk)
 		if act.kind == aTwoJunk {
-			p.sendRaw(al, srv, from, make([]byte, 47), false)
+			p.sendRaw(al, srv, from, act.junk)
 			return
 		}
 		pd := p.handle(h, srv, req, from, rxReal, act.theta[0], act.fwd[0], false)
 		p.finish(h, idx, al, pd, act.back[0], true, nil)
 	case aForeignFirst:
+		p.sendRaw(al, srv, from, junkForeign)
 		pd := p.handle(h, srv, req, from, rxReal, act.theta[0], act.fwd[0], false)
-		// the same reply, but from another address, ahead of the real one
-		p.finish(h, idx, al, pd, act.back[0], true, func(pkt *ntp.Packet) {
-			var fb []byte
-			ntp.EncodePacket(&fb, pkt)
-			p.sendRaw(al, srv, from, fb, true)
-		})
+		p.finish(h, idx, al, pd, act.back[0], true, nil)
 	case aStaleFirst, aTwoStale, aStaleOnly:
 		pd := p.handle(h, srv, req, from, rxReal, act.theta[0], act.fwd[0], false)
 		p.finish(h, idx, al, pd, act.back[0], act.kind == aStaleFirst, func(pkt *ntp.Packet) {
@@ -384,27 +453,60 @@ func (p *peer) finishMut(h *histState, idx int, al *attemptLog, pd pending, back
 	p.send(al, pd.srv, pd.from, pkt)
 }
 
-func (p *peer) send(al *attemptLog, srv int, to netip.AddrPort, pkt ntp.Packet) {
+// the reply as it goes on the wire: NTP, with NTS fields when the history uses
+// NTS, in a SCION/UDP packet when it is a SCION history
+func (p *peer) encode(al *attemptLog, pkt ntp.Packet, now time.Time) []byte {
 	var b []byte
 	ntp.EncodePacket(&b, &pkt)
-	t := realNow()
-	if p.h.script.scion {
-		// the receive-timestamp option, when present, says "received now"
-		b = wrapSCION(al.reqRaw, b, false, p.h.script.tsopt, t)
+	h := p.h
+	if h.script.nts && al.uid != nil {
+		ck := make([]byte, 100)
+		crand.Read(ck)
+		resp := nts.NewResponsePacket([][]byte{ck}, p.ke.s2cKey(), al.uid)
+		nts.EncodePacket(&b, &resp)
 	}
-	p.conns[srv].WriteToUDPAddrPort(b, to)
+	if h.script.scion {
+		// the receive-timestamp option, when present, says "received now"; a hop-by-hop
+		// option of the same type (which the client must ignore) says something else
+		b = wrapSCION(al.reqRaw, b, scionOpts{tsForm: h.script.tsopt, ts: now, hbh: h.script.hbh})
+	}
+	return b
+}
+
+func (p *peer) send(al *attemptLog, srv int, to netip.AddrPort, pkt ntp.Packet) {
+	t := realNow()
+	b := p.encode(al, pkt, t)
+	p.conn(srv).WriteToUDPAddrPort(b, to)
 	al.dgrams = append(al.dgrams, sentDgram{pkt: pkt, sendReal: t})
 	p.h.replies = append(p.h.replies, sentReply{pkt: pkt, req: al.req})
 }
 
-// a datagram the client cannot use: too short to be an NTP packet, or (foreign)
-// a well-formed reply from somebody else (IP: another address; SCION: another AS)
-func (p *peer) sendRaw(al *attemptLog, srv int, to netip.AddrPort, b []byte, foreign bool) {
-	c := p.conns[srv]
-	if p.h.script.scion {
-		b = wrapSCION(al.reqRaw, b, foreign, 0, time.Time{})
-	} else if foreign {
+// a datagram the client cannot use
+func (p *peer) sendRaw(al *attemptLog, srv int, to netip.AddrPort, flavour int) {
+	h := p.h
+	c := p.conn(srv)
+	var b []byte
+	switch {
+	case h.script.scion && flavour == junkForeign:
+		// a well-formed reply from another AS whose receive-timestamp option names a
+		// time one second ago: it must be refused and must leave no trace
+		var fb []byte
+		ntp.EncodePacket(&fb, &ntp.Packet{LVM: 0x24, Stratum: 1, OriginTime: al.req.TransmitTime,
+			ReceiveTime: ntp.Time64FromTime(realNow()), TransmitTime: ntp.Time64FromTime(realNow())})
+		b = wrapSCION(al.reqRaw, fb, scionOpts{foreign: true, tsForm: 1 + len(al.reqRaw)%2, ts: realNow().Add(-time.Second)})
+	case h.script.scion:
+		b = wrapSCION(al.reqRaw, []byte{0x24, 1, 2, 3, 4, 5, 6, 7, 8, 9}, scionOpts{})
+	case flavour == junkForeign && !h.script.v6:
+		ntp.EncodePacket(&b, &ntp.Packet{LVM: 0x24, Stratum: 1, OriginTime: al.req.TransmitTime,
+			ReceiveTime: ntp.Time64FromTime(realNow()), TransmitTime: ntp.Time64FromTime(realNow())})
 		c = p.foreign
+	case flavour == junkOversize && !h.script.nts:
+		// longer than the 48 bytes the client reads into: the kernel reports truncation
+		ntp.EncodePacket(&b, &ntp.Packet{LVM: 0x24, Stratum: 1, OriginTime: al.req.TransmitTime,
+			ReceiveTime: ntp.Time64FromTime(realNow()), TransmitTime: ntp.Time64FromTime(realNow())})
+		b = append(b, make([]byte, 20)...)
+	default:
+		b = []byte{0x24, 1, 2, 3, 4, 5, 6, 7, 8, 9}
 	}
 	t := realNow()
 	c.WriteToUDPAddrPort(b, to)
